@@ -568,6 +568,10 @@ pub struct C04State {
     pub from_genesis_requests: u64,
     /// branch switches the client could not notice (no reorg section / child fast path): (clause, fork point)
     pub unnoticed: Vec<(String, u64)>,
+    /// per session: when the from-genesis recheck was requested from it, was the peer's own
+    /// proven tip the stored tip (so that its reorg section was computed relative to what the
+    /// client remembers)? With it: (stored tip hash, stored tip number) at that moment.
+    pub recheck_from_own_tip: HashMap<usize, (bool, Vec<u8>, u64)>,
 }
 
 pub fn c04_on_long_fork_abort(ck: &mut Checker, sim: &mut Sim, ctx: &str) {
@@ -626,6 +630,18 @@ pub fn c04_on_long_fork_abort(ck: &mut Checker, sim: &mut Sim, ctx: &str) {
             "long_fork_abort_without_the_from_genesis_recheck",
             format!("'long fork detected' {}", ctx),
         );
+    } else if let Some((depth, fork)) = c04_short_fork_of_own_tip(ck, sim, session, new_id) {
+        // not the recorded finding (a reorg section computed relative to a peer's stale prove
+        // state): this peer's proven tip WAS the stored tip, and the fork is within last-N
+        let window: Vec<u64> = ck.snap.last_n.iter().map(|(n, _)| *n).collect();
+        let detail = format!(
+            "the peer's own proven tip was the stored tip, the new chain forks {} blocks below it (at #{}), last-N is {}, the stored window holds the numbers {:?} ; {}",
+            depth, fork, sim.plan.knobs.last_n, window, ctx
+        );
+        sim.violate("C04", "fork_within_last_n_of_the_proving_peers_own_tip_taken_for_a_long_fork", detail.clone());
+        if ck.honest_only {
+            sim.violate("C05", "abort_on_a_fork_within_last_n_in_an_honest_world", detail);
+        }
     } else if let Some(n) = shared {
         sim.violate(
             "C04",
@@ -636,6 +652,30 @@ pub fn c04_on_long_fork_abort(ck: &mut Checker, sim: &mut Sim, ctx: &str) {
         sim.stat("probe.c04.long_fork_abort");
     }
 }
+/// (depth, fork number) when the recheck was requested while the answering peer's own proven
+/// tip was the stored tip and the proven chain leaves that tip's chain at most last-N blocks
+/// below it.
+fn c04_short_fork_of_own_tip(ck: &Checker, sim: &Sim, session: usize, new_id: Option<usize>) -> Option<(u64, u64)> {
+    let (own, tip_hash, tip_number) = ck.c04.recheck_from_own_tip.get(&session)?.clone();
+    if !own {
+        return None;
+    }
+    let new_id = new_id?;
+    let old_id = *sim.world.by_hash.get(&Byte32::from_slice(&tip_hash).ok()?)?;
+    if sim.world.is_ancestor_or_self(old_id, new_id) {
+        return None;
+    }
+    let fork = sim.world.blocks[sim.world.common_ancestor(old_id, new_id)].number();
+    let depth = tip_number.checked_sub(fork)?;
+    // (a fork right above the genesis block replaces everything the client remembers: that
+    // case stays with the recorded finding's classification)
+    if fork >= 1 && depth >= 1 && depth <= sim.plan.knobs.last_n {
+        Some((depth, fork))
+    } else {
+        None
+    }
+}
+
 pub fn c04_on_client_send(ck: &mut Checker, sim: &mut Sim, _s: usize, p: Proto, d: &Bytes) {
     if p != Proto::LightClient {
         return;
@@ -646,6 +686,10 @@ pub fn c04_on_client_send(ck: &mut Checker, sim: &mut Sim, _s: usize, p: Proto, 
             if start == 0 && ck.snap.tip_number > 0 {
                 ck.c04.from_genesis_requests += 1;
                 sim.stat("probe.c04.from_genesis_recheck_request");
+                let own = ck.snap.prove.get(&_s).and_then(|(p, _)| p.clone()) == Some(ck.snap.tip_hash.clone());
+                ck.c04
+                    .recheck_from_own_tip
+                    .insert(_s, (own, ck.snap.tip_hash.clone(), ck.snap.tip_number));
             }
         }
     }
